@@ -18,6 +18,37 @@ CLAIMED = {
     },
 }
 
+CLAIMED["C06"] = {
+    "level": "model_checking",
+    "text": "PQ.tla states the property itself (multiset of (value, identity, handle); pop/top return a minimum, ties free; "
+            "remove-by-handle removes exactly that element; stale handles refused; static capacity refused). TLC explores all "
+            "operation sequences over 3 values / 3-4 handles / 5-6 pushes (both storage modes) checking handle/identity "
+            "invariants, generates operation scripts by simulation, and validates every event of ~1.8k (quick) / ~38k "
+            "(thorough) executions of the real aws_priority_queue (element sizes 1..300 around the 128-byte swap slice) "
+            "against the specification, including size, in-queue flag and current_index of every handle after each call.",
+    "note": "Code is covered along the executed scripts only. Trusted: TLC, the adapter's projection (value = first byte, "
+            "identity = next two bytes, payload pattern check), ASan, comparator on the first byte. A static queue may or may "
+            "not accept handles (documented as unsupported); allocation failure paths are unreachable (aws_mem_acquire aborts).",
+    "technique": "TLA+ spec (PQ.tla) model-checked with TLC; TLC-generated + random scripts replayed on the real queue; trace validation (PQTrace.tla)",
+    "design_ref": "DESIGN.md section 5 C06",
+}
+CLAIMED["C08"] = {
+    "level": "model_checking",
+    "text": "Two layers. ThreadSched.tla transcribes thread_scheduler.c step by step (lock+swap, unlock, process, timed wait with "
+            "predicate, notify, store-exit / notify-all / join / drain / clean-up) and TLC checks exactly-once, run-only-on-"
+            "scheduler-thread, never-early, thread-gone-at-close, no-leak in every interleaving of 1-2 clients with the "
+            "scheduler thread and the clock, plus liveness of the final release under fairness. The real library is then "
+            "executed under a controlled scheduler (every pthread mutex/condvar/create/join, atomic and clock operation is a "
+            "schedule point; virtual time; one forked child per execution): systematic bounded-preemption exploration of core "
+            "scenarios plus PCT/random schedules of random 1-3 client scenarios, ~3.4k executions quick / ~60k thorough; TLC "
+            "validates each execution's user-visible event trace against ThreadSchedAbs.tla (the property). Deadlock, hang "
+            "(1 virtual hour with no runnable thread), crash, leak and unjoined thread are violations.",
+    "note": "Sequentially consistent serialised execution (data races on plain memory and weak-memory effects are invisible); no "
+            "spurious wake-ups; bounded schedules (preemption bound 2/3 + random). Trusted: the vsched interposition layer, TLC.",
+    "technique": "TLA+ specs (ThreadSched.tla impl-shaped, ThreadSchedAbs.tla abstract) + TLC; controlled-scheduler executions of the real code validated by TLC (ThreadSchedTrace.tla)",
+    "design_ref": "DESIGN.md section 4.4, 5 C08",
+}
+
 NOT_YET = "check not built yet (work in progress in this session; see DESIGN.md section 8 build order)"
 NOT_APPLICABLE = {}
 ALL = ["C%02d" % i for i in range(1, 21)]
